@@ -467,6 +467,22 @@ func ruleSSALiterals(p *Prog, l *Ledger, tier string) {
 			}
 		}
 	}
+	// the same test written as a lookup of strings.ToLower(title) in a package-level map literal
+	for _, b := range rd.Blocks {
+		for _, ins := range b.Instrs {
+			lk, ok := ins.(*ssa.Lookup)
+			if !ok || !isLower(lk.Index) {
+				continue
+			}
+			if u, ok := lk.X.(*ssa.UnOp); ok {
+				if gl, ok := u.X.(*ssa.Global); ok {
+					for _, k := range p.globalMapKeys(gl.Name()) {
+						sections.add(k)
+					}
+				}
+			}
+		}
+	}
 	if len(sections) == 0 {
 		l.Undecide(rule, "ReadFromSSAWithOptions", rule+"|sections-read", "", "the section names the reader recognises could not be extracted (neither a switch on strings.ToLower(…) nor strings.EqualFold tests)")
 		return
